@@ -267,6 +267,13 @@ def cmd_run(a):
         for l in open(a.out):
             done.add(json.loads(l)["id"])
     muts = [m for m in muts if m["id"] not in done]
+    if a.only_missed_from:
+        ok = set()
+        for l in open(a.only_missed_from):
+            r0 = json.loads(l)
+            if r0["suite"] == "pass" and not any(v.startswith("CAUGHT") for v in r0["checks"].values()):
+                ok.add(r0["id"])
+        muts = [m for m in muts if m["id"] in ok]
     if a.only_suite_pass_from:
         ok = {json.loads(l)["id"] for l in open(a.only_suite_pass_from) if json.loads(l)["suite"] == "pass"}
         muts = [m for m in muts if m["id"] in ok]
@@ -335,6 +342,7 @@ def main():
     r.add_argument("--jobs", type=int, default=12)
     r.add_argument("--props", default=None)
     r.add_argument("--suite-only", action="store_true")
+    r.add_argument("--only-missed-from", default=None, help="results file of an earlier run: only mutants that passed the suite and were caught by no check there")
     r.add_argument("--only-suite-pass-from", default=None, help="results file of a --suite-only run: only mutants that passed the suite there are run")
     p = sub.add_parser("report")
     p.add_argument("--in", dest="inp", required=True)
